@@ -1546,6 +1546,15 @@ class Interp(Ops):
                     del d[k]
                     self.st.heap[(base.ref, "items")] = d
                     continue
+                if isinstance(base, VMap) and not getattr(base, "ordered", False):
+                    # del m[k] on a symbolic dict: KeyError when absent, else the key leaves the domain
+                    from .loops import kterm
+                    kt = kterm(self, self.eval(t.slice, fr))
+                    dom = self.st.heap[(base.ref, "dom")]
+                    if not self.st.branch(z3.Select(dom, kt)):
+                        raise_("KeyError")
+                    self.st.heap[(base.ref, "dom")] = z3.Store(dom, kt, z3.BoolVal(False))
+                    continue
             raise Unsupported("del")
 
     def s_Assert(self, s, fr):
